@@ -84,6 +84,18 @@ def comparison_part(pid, tier, rep, rng):
             continue
         kind = rng.choice(compare.kinds_for(u))
         recs.append(compare.run_case(f"r{j}", kind, u, style, cards, rng.randint(0, n), rng))
+    # values exactly at the bound: a two-vote understatement (CVR for the loser, manual record for the winner) scores
+    # exactly u for every margin - many margins (card counts) with assorter bounds other than 1
+    for j in range(200 if tier == "quick" else 3000):
+        n = rng.randint(8, 45)
+        u = rng.choice([x for x in US if x != 1] or US)
+        style = rng.random() < 0.5
+        cards = [dict(cs=rng.choice("wwwln"), ph=False, pool="none", ms=rng.choice("wwlnx")) for _ in range(n)]
+        cards[rng.randrange(n)] = dict(cs="l", ph=False, pool="none", ms="w")
+        for c in cards:
+            if c["ms"] == "x" and rng.random() < 0.5:
+                c["ms"] = c["cs"]
+        recs.append(compare.run_case(f"b{j}", rng.choice(compare.kinds_for(u)), u, style, cards, n, rng))
     rejects, stats = core.validate_traces("Trace_Comparison", recs)
     rep.add_trace_stats("Trace_Comparison", stats)
     byid = {r["tid"]: r for r in recs}
